@@ -1546,6 +1546,9 @@ func directionField(c *Ctx, ctorObj *types.Func, typ *types.Named) (*types.Var, 
 		if a.Kind == "func" && b.Kind == "func" && a.Fn != nil && b.Fn != nil && a.Fn != b.Fn {
 			differ = true // the direction kept as the function to apply (chosen once, in the constructor)
 		}
+		if a.Dyn != nil && b.Dyn != nil && !types.Identical(a.Dyn, b.Dyn) {
+			differ = true // ... or as a strategy object: two implementations of a small interface
+		}
 		if differ {
 			if fld != nil {
 				return nil, nil
